@@ -1,3 +1,174 @@
-/-! # C11 — property theorems (to be written) -/
+import BddVerif.Lemmas.SelectOrder
+import BddVerif.Lemmas.SelectCheck
+import BddVerif.Lemmas.SelectIs
+import BddVerif.Lemmas.SelectMostC
+import BddVerif.Lemmas.SelectNec2
+/-!
+# C11 — witness and clause selectors return real, extremal members
+
+Property theorems about the executable model `Model/Select.lean` of
+`src/_impl_bdd/_impl_valuation_utils.rs` and `sat_witness` / `is_valuation` / `is_clause` of
+`src/_impl_bdd/_impl_util.rs`. Helper lemmas live in `Lemmas/Select*.lean`.
+
+Hypothesis of every theorem: `Can A n` — `A` is a reduced, post-ordered node array over `n` variables
+(`Red A n`: children stored before parents, strictly increasing variables along edges, no node with equal
+children, no duplicate node) of at least two nodes (so it is not the contradiction) whose terminal entries are
+`(n,0,0)` and `(n,1,1)`. `sat_witness` additionally needs `NoOrphan A` (no unreachable node), which every
+canonical array has and `Red` alone does not imply. Both hypotheses are decidable (`canB`, `noOrphanB`).
+
+Vocabulary: `fn v` is the valuation function of the list `v`; `den A w` is the value of the diagram under `w`;
+the order on valuations is core Lean's lexicographic `≤` on `List Bool` with `false < true`, variable 0 first —
+the derived `Ord` of `BddValuation(Vec<bool>)` (the doc comments in the Rust file say "greatest variable id most
+significant"; the code and the derived order say the opposite, and that is what is proved);
+`IsPath A p ds q` — `ds` are the decisions `(variable, branch)` of a path of the diagram from pointer `p` to
+pointer `q`; a clause `c` "is" the path `ds` when `getC c k = ds.lookup k` for every variable `k`.
+-/
 namespace B.Props.C11
+open B B.Select
+
+/-- number of variables below `n` that have the value `b` under `w` -/
+abbrev count (b : Bool) (w : Nat → Bool) (n : Nat) : Nat := cnt b w 0 n
+
+/-- all selectors return `None` on the contradiction (the one-node array), for every variable count and every
+    list of coin flips; `is_clause` and `is_valuation` answer `false` -/
+theorem none_on_false (n : Nat) (fl : List Bool) :
+    satWitness (mkFalse n) = Sel.none ∧ firstValuation (mkFalse n) = Sel.none ∧
+    lastValuation (mkFalse n) = Sel.none ∧ mostPositiveValuation (mkFalse n) = Sel.none ∧
+    mostNegativeValuation (mkFalse n) = Sel.none ∧ firstClause (mkFalse n) = Sel.none ∧
+    lastClause (mkFalse n) = Sel.none ∧ mostFixedClause (mkFalse n) = Sel.none ∧
+    mostFreeClause (mkFalse n) = Sel.none ∧ randomValuation (mkFalse n) fl = Sel.none ∧
+    randomClause (mkFalse n) fl = Sel.none ∧ necessaryClause (mkFalse n) = Sel.none ∧
+    isClause (mkFalse n) = some false ∧ isValuation (mkFalse n) = some false := by
+  refine ⟨rfl, rfl, rfl, rfl, rfl, rfl, rfl, rfl, rfl, rfl, rfl, rfl, rfl, rfl⟩
+
+/-- `sat_witness` returns a satisfying valuation -/
+theorem witness_sat {A : Arr} {n : Nat} (h : Can A n) (hno : NoOrphan A) :
+    ∃ v, satWitness A = Sel.some v ∧ v.length = n ∧ den A (fn v) = true :=
+  sat_witness_spec h hno
+
+/-- `first_valuation` returns the least satisfying valuation -/
+theorem first_valuation_least {A : Arr} {n : Nat} (h : Can A n) :
+    ∃ v, firstValuation A = Sel.some v ∧ v.length = n ∧ den A (fn v) = true ∧
+      ∀ w : List Bool, w.length = n → den A (fn w) = true → v ≤ w := by
+  obtain ⟨v, hv, hlen, hden, hle⟩ := first_valuation_spec h
+  refine ⟨v, hv, hlen, hden, ?_⟩
+  intro w hwl hw
+  exact le_of_LexLe (by omega) (by rw [hlen]; exact hle (fn w) hw)
+
+/-- `last_valuation` returns the greatest satisfying valuation -/
+theorem last_valuation_greatest {A : Arr} {n : Nat} (h : Can A n) :
+    ∃ v, lastValuation A = Sel.some v ∧ v.length = n ∧ den A (fn v) = true ∧
+      ∀ w : List Bool, w.length = n → den A (fn w) = true → w ≤ v := by
+  obtain ⟨v, hv, hlen, hden, hle⟩ := last_valuation_spec h
+  refine ⟨v, hv, hlen, hden, ?_⟩
+  intro w hwl hw
+  exact le_of_LexLe (by omega) (by rw [hwl]; exact hle (fn w) hw)
+
+/-- `first_clause` returns a path of the diagram that takes the `false` branch wherever it diverges from
+    another path -/
+theorem first_clause_path {A : Arr} {n : Nat} (h : Can A n) :
+    ∃ c ds, firstClause A = Sel.some c ∧ IsPath A (root A) ds 1 ∧ (∀ k, getC c k = ds.lookup k) ∧
+      ∀ ds', IsPath A (root A) ds' 1 → ds' = ds ∨
+        ∃ pre x r r', ds = pre ++ (x, false) :: r ∧ ds' = pre ++ (x, true) :: r' := by
+  obtain ⟨c, ds, h1, h2, h3, h4⟩ := first_clause_spec h
+  refine ⟨c, ds, h1, h2, h3, ?_⟩
+  intro ds' hp
+  rcases h4 ds' hp with e | ⟨pre, x, r, r', e1, e2⟩
+  · exact Or.inl e
+  · exact Or.inr ⟨pre, x, r, r', e1, by simpa using e2⟩
+
+/-- `last_clause` returns a path of the diagram that takes the `true` branch wherever it diverges from
+    another path -/
+theorem last_clause_path {A : Arr} {n : Nat} (h : Can A n) :
+    ∃ c ds, lastClause A = Sel.some c ∧ IsPath A (root A) ds 1 ∧ (∀ k, getC c k = ds.lookup k) ∧
+      ∀ ds', IsPath A (root A) ds' 1 → ds' = ds ∨
+        ∃ pre x r r', ds = pre ++ (x, true) :: r ∧ ds' = pre ++ (x, false) :: r' := by
+  obtain ⟨c, ds, h1, h2, h3, h4⟩ := last_clause_spec h
+  refine ⟨c, ds, h1, h2, h3, ?_⟩
+  intro ds' hp
+  rcases h4 ds' hp with e | ⟨pre, x, r, r', e1, e2⟩
+  · exact Or.inl e
+  · exact Or.inr ⟨pre, x, r, r', e1, by simpa using e2⟩
+
+/-- `most_positive_valuation`: satisfying, maximal number of `true` variables, and the least such -/
+theorem most_positive_spec {A : Arr} {n : Nat} (h : Can A n) :
+    ∃ v, mostPositiveValuation A = Sel.some v ∧ v.length = n ∧ den A (fn v) = true ∧
+      (∀ w : List Bool, w.length = n → den A (fn w) = true → count true (fn w) n ≤ count true (fn v) n) ∧
+      (∀ w : List Bool, w.length = n → den A (fn w) = true → count true (fn w) n = count true (fn v) n → v ≤ w) := by
+  obtain ⟨v, hv, hlen, hden, hmax, hle⟩ := most_positive_valuation_spec h
+  refine ⟨v, hv, hlen, hden, fun w _ hw => hmax (fn w) hw, ?_⟩
+  intro w hwl hw hc
+  exact le_of_LexLe (by omega) (by rw [hlen]; exact hle (fn w) hw hc)
+
+/-- `most_negative_valuation`: satisfying, maximal number of `false` variables, and the least such -/
+theorem most_negative_spec {A : Arr} {n : Nat} (h : Can A n) :
+    ∃ v, mostNegativeValuation A = Sel.some v ∧ v.length = n ∧ den A (fn v) = true ∧
+      (∀ w : List Bool, w.length = n → den A (fn w) = true → count false (fn w) n ≤ count false (fn v) n) ∧
+      (∀ w : List Bool, w.length = n → den A (fn w) = true → count false (fn w) n = count false (fn v) n → v ≤ w) := by
+  obtain ⟨v, hv, hlen, hden, hmax, hle⟩ := most_negative_valuation_spec h
+  refine ⟨v, hv, hlen, hden, fun w _ hw => hmax (fn w) hw, ?_⟩
+  intro w hwl hw hc
+  exact le_of_LexLe (by omega) (by rw [hlen]; exact hle (fn w) hw hc)
+
+/-- `most_fixed_clause` returns a path with the maximal number of decisions (= fixed variables) -/
+theorem most_fixed_spec {A : Arr} {n : Nat} (h : Can A n) :
+    ∃ c ds, mostFixedClause A = Sel.some c ∧ IsPath A (root A) ds 1 ∧ (∀ k, getC c k = ds.lookup k) ∧
+      ∀ ds', IsPath A (root A) ds' 1 → ds'.length ≤ ds.length :=
+  most_fixed_clause_spec h
+
+/-- `most_free_clause` returns a path with the minimal number of decisions (= fixed variables) -/
+theorem most_free_spec {A : Arr} {n : Nat} (h : Can A n) :
+    ∃ c ds, mostFreeClause A = Sel.some c ∧ IsPath A (root A) ds 1 ∧ (∀ k, getC c k = ds.lookup k) ∧
+      ∀ ds', IsPath A (root A) ds' 1 → ds.length ≤ ds'.length :=
+  most_free_clause_spec h
+
+/-- `random_valuation` returns a satisfying valuation whatever the generator yields -/
+theorem random_valuation_sat {A : Arr} {n : Nat} (h : Can A n) (flips : List Bool) :
+    ∃ v, randomValuation A flips = Sel.some v ∧ v.length = n ∧ den A (fn v) = true :=
+  random_valuation_spec h flips
+
+/-- `random_clause` returns a path of the diagram whatever the generator yields -/
+theorem random_clause_path {A : Arr} {n : Nat} (h : Can A n) (flips : List Bool) :
+    ∃ c ds, randomClause A flips = Sel.some c ∧ IsPath A (root A) ds 1 ∧ ∀ k, getC c k = ds.lookup k := by
+  obtain ⟨c, hc, ds, hp, hg⟩ := random_clause_spec h flips
+  exact ⟨c, ds, hc, hp, hg⟩
+
+/-- `necessary_clause` returns a clause (it does not reach its `unreachable!()`), and every literal of it is
+    shared by all satisfying valuations -/
+theorem necessary_clause_sound {A : Arr} {n : Nat} (h : Can A n) :
+    ∃ c, necessaryClause A = Sel.some c ∧
+      ∀ k b, getC c k = some b → ∀ w : Nat → Bool, den A w = true → w k = b :=
+  Select.necessary_clause_sound h
+
+/-- `is_clause` holds exactly when the function is a single cube -/
+theorem is_clause_spec {A : Arr} {n : Nat} (h : Can A n) :
+    ∃ b, isClause A = some b ∧
+      (b = true ↔ ∃ c : Clause, ∀ w : Nat → Bool, den A w = true ↔ ∀ k v, getC c k = some v → w k = v) :=
+  Select.is_clause_spec h
+
+/-- `is_valuation` holds exactly when one valuation of the `n` variables satisfies the function -/
+theorem is_valuation_spec {A : Arr} {n : Nat} (h : Can A n) :
+    ∃ b, isValuation A = some b ∧
+      (b = true ↔ ∃ u : List Bool, u.length = n ∧
+        ∀ w : Nat → Bool, den A w = true ↔ ∀ k, k < n → w k = fn u k) :=
+  Select.is_valuation_spec h
+
+/-! ### non-vacuity: the hypotheses hold on concrete non-trivial diagrams, and the selectors compute there -/
+
+example : Can exGap 5 ∧ NoOrphan exGap := ⟨exGap_can, exGap_noOrphan⟩
+example : Can exVal 3 := exVal_can
+example : Can (mkTrue 4) 4 := canB_sound (by decide)
+
+-- `(x0 ∧ x2) ∨ (¬x0 ∧ x3)` over five variables
+example : firstValuation exGap = Sel.some [false, false, false, true, false] := by decide
+example : lastValuation exGap = Sel.some [true, true, true, true, true] := by decide
+example : mostPositiveValuation exGap = Sel.some [true, true, true, true, true] := by decide
+example : mostNegativeValuation exGap = Sel.some [false, false, false, true, false] := by decide
+example : satWitness exGap = Sel.some [true, false, true, false, false] := by decide
+example : firstClause exGap = Sel.some [some false, none, none, some true] := by decide
+example : necessaryClause exGap = Sel.some [] := by decide
+example : randomValuation exGap [true, false, true] = Sel.some [true, false, true, true, false] := by decide
+example : isClause exGap = some false ∧ isValuation exVal = some true ∧ isClause exVal = some true := by decide
+example : necessaryClause exVal = Sel.some [some true, some false, some true] := by decide
+
 end B.Props.C11
